@@ -711,25 +711,23 @@ func (s *Session) SetUnmarshaller(unmarshaller Unmarshaller) {
 }
 
 func (s *Session) Stop() (err error) {
-	defer func() {
-		s.eventHandler.Clean()
-	}()
-
-	err = s.Logout()
-	if err != nil {
-		return fmt.Errorf("sendWithErrorCheck logout request: %w", err)
-	}
-
 	delayTimer := time.AfterFunc(s.LogonSettings.CloseTimeout, func() {
 		s.cancel()
 	})
 
+	// The callback has to be in place before the Logout is sent, and must survive this call:
+	// it is what ends the session as soon as the counterparty answers.
 	s.OnChangeState(utils.EventLogout, func() bool {
 		delayTimer.Stop()
 		s.cancel()
 
 		return true
 	})
+
+	err = s.Logout()
+	if err != nil {
+		return fmt.Errorf("sendWithErrorCheck logout request: %w", err)
+	}
 
 	return nil
 }
